@@ -128,13 +128,6 @@ pub fn collect(root: &SNode) -> Vec<Rec> {
     out
 }
 
-pub fn loc_json(l: &Location) -> serde_json::Value {
-    serde_json::json!({
-        "line": l.line(), "col": l.column(), "off": l.span().offset(), "len": l.span().len(),
-        "boff": l.span().byte_offset(), "blen": l.span().byte_len()
-    })
-}
-
 pub fn loc_str(l: &Location) -> String {
     format!(
         "{}:{}@{}+{}/b{:?}+{:?}",
